@@ -84,6 +84,22 @@ class counting_set {
 
   ygm::comm &comm() { return m_map.comm(); }
 
+#ifdef YGM_VERIF_HOOKS
+  // Verification only: behave as if `key` had been inserted `n` >= 1 more times
+  // on this rank since its cache slot was last flushed, without looping n
+  // times. Lets a check reach the int32 saturation guard of cache_insert.
+  void verif_cache_insert_n(const key_type &key, int32_t n) {
+    cache_insert(key);
+    size_t slot = std::hash<key_type>{}(key) % count_cache_size;
+    if (m_count_cache[slot].second != -1 && m_count_cache[slot].first == key &&
+        n > 1 &&
+        m_count_cache[slot].second <=
+            std::numeric_limits<int32_t>::max() - n) {
+      m_count_cache[slot].second += n - 1;
+    }
+  }
+#endif
+
  private:
   void cache_erase(const key_type &key) {
     size_t slot = std::hash<key_type>{}(key) % count_cache_size;
